@@ -380,12 +380,19 @@ func runReplayL2(rf *ReplayFile, corpusSrc string) (bool, string, error) {
 			return false, "", err
 		}
 	}
-	cmd := exec.Command("go", "test", "-v", "-vet=off", "-count=1", "-run", "TestVerifReplay$", "-timeout", "300s", ".")
+	targs := []string{"test", "-v", "-vet=off", "-count=1", "-run", "TestVerifReplay$", "-timeout", "300s"}
+	if rf.Property == "C12" {
+		targs = append(targs, "-race")
+	}
+	cmd := exec.Command("go", append(targs, ".")...)
 	cmd.Dir = pkgDir
 	cmd.Env = goEnv()
 	out, _ := cmd.CombinedOutput()
 	s := string(out)
 	ok := strings.Contains(s, "REPRODUCED property=") && !strings.Contains(s, "NOT-REPRODUCED")
+	if rf.Property == "C12" {
+		return strings.Contains(s, "WARNING: DATA RACE"), s, nil
+	}
 	if !ok && strings.Contains(s, "panic: ") && !strings.Contains(s, "assumption violated") {
 		// the test binary died with a Go panic: for panic-containment
 		// obligations this is the observation itself
